@@ -132,7 +132,7 @@ class Handler(Obligation):
                 out.append(Cover('returned after waiting for the signal', len(enq) >= 2))
                 out.append(Cover('timer fired'), ) if timer else None
                 out = [o for o in out if o is not None]
-            if self.method not in ('get_topic',) and (self.method != 'pull' or enq):
+            if self.method not in ('get_topic',) and (self.method not in ('pull', 'publish') or enq):
                 out.append(Claim('the request goes to the resource that was looked up',
                                  len(enq) >= 1 and all(e[1] == kind for e in enq) and
                                  z3.simplify(z3.And([z3.Or([z3.And(u, t == e[2]) for u, t in ents]) for e in enq])) is not None))
@@ -198,7 +198,12 @@ class PublishHandler(Handler):
             return out
         ev = ip.src.enum_variants('TopicRequest')
         enq = [e for e in res['log'] if e[0] == 'enqueue' and e[1] == 'topic']
-        out.append(Claim('exactly one request to the topic: PublishMessages', len(enq) == 1 and ev[enq[0][3].discr][0] == 'PublishMessages'))
+        if not enq:
+            # an empty Publish has nothing to hand to the topic: whether the handler still sends an empty batch is not a property
+            out.append(Claim('no request to the topic only for an empty batch', res['extra']['n'] == 0))
+            return out
+        out.append(Claim('a non-empty batch goes to the topic as exactly one PublishMessages request (what keeps the messages of one Publish contiguous)',
+                         len(enq) == 1 and ev[enq[0][3].discr][0] == 'PublishMessages'))
         if len(enq) != 1:
             return out
         batch = enq[0][3].payload[enq[0][3].discr][0]
